@@ -23,19 +23,19 @@ CLAIMED = {
         ref='DESIGN.md 7 C01'),
     'C02': dict(
         text='Lemmas over the C01 contract, proved by induction on the sample index (base + step obligations, quantifier-free steps): linearity, causality, delay by k prepended zeros, a row depends on its own period only; the flow (semigroup) identity '
-             'of the exact step that refinement invariance rests on; spectral corollaries (|alpha| scaling, sign, never decrease under refinement) from absmax\'s contract. Plus bounded symbolic relational checks between executions of the REAL code (n = 3, 4; two periods): linearity of u, v, a; causality at every split; shift by 1 and 2; period order / batching / leading zero.',
+             'of the exact step that refinement invariance rests on; spectral corollaries (|alpha| scaling, sign, never decrease under refinement) from absmax\'s contract. Plus bounded symbolic relational checks between executions of the REAL code (n = 3, 4; two periods): linearity of u, v, a; causality at every split; shift by 1 and 2; period order / batching / leading zero; three periods in any order with both cyclic rotations of the list.',
         note='The induction over the m sub-steps that turns the flow identity into refinement invariance is stated, not mechanised. The "checkable to 1e-10" clause is about floating point (A3).',
         ref='DESIGN.md 7 C02'),
     'C03': dict(
         text='Modular (over the C01 contract) unbounded proofs: absmax = max|.| (bound + attained, 1-D and per row); pseudo_response_spectra / true_response_spectra for array, list and tuple period containers of float AND integer elements, with and without a leading 0: '
              'S_d = max|u|, S_v = w S_d / max|v|, S_a = w^2 S_d / max|a_total| above 6 dt and PGA below, T=0 entries, non-negativity, one entry per period, response computed for exactly this record/step/periods/damping; undamped true S_a equals pseudo S_a to 3e-9; '
-             'AccSignal.gen_response_spectrum: integration step <= max(T_min/20, dt/min_dt_ratio), dt an integer multiple of it, every original sample retained in the integrated record, periods/damping passed, s_a/s_v/s_d are that computation; energy spectra equal their defining sums.',
+             'AccSignal.gen_response_spectrum (from a fresh object and from an object that has already produced a spectrum for other periods, damping and min_dt_ratio): integration step <= max(T_min/20, dt/min_dt_ratio), dt an integer multiple of it, every original sample retained in the integrated record, periods/damping passed, s_a/s_v/s_d are that computation; energy spectra equal their defining sums.',
         note='Input energy non-negative at record end: false for the rectangle sum (known finding K1, printed as KNOWN-FINDING). Finiteness is outside exact arithmetic (A3). calc_asi / calc_vsi wiring not under contract.',
         ref='DESIGN.md 7 C03'),
     'C04': dict(
         text='Representation invariant (flag -> cached == F(values, dt, settings), F defined by running the real generator from a cold cache) proved preserved by EVERY public operation of Signal and '
-             'AccSignal from an ARBITRARY state satisfying it (symbolic cache flags, symbolic record/settings of symbolic length): 53 mutator / settings / generator operations incl. the attribute write '
-             'response_times=x, 19 readers (idempotent, return the fresh-object value, leave values/dt/settings untouched), and the constructors. By induction over histories this covers all finite interleavings with no bound. '
+             'AccSignal from an ARBITRARY state satisfying it (symbolic cache flags, symbolic record/settings of symbolic length): 55 mutator / settings / generator operations incl. the attribute write '
+             'response_times=x and the aliasing forms response_times*=c / edit-in-place-then-reassign, 19 readers (idempotent, return the fresh-object value, leave values/dt/settings untouched), and the constructors. By induction over histories this covers all finite interleavings with no bound. '
              'Each obligation is observational: every reader of the post-state equals the reader of a cold clone.',
         note='The numerical kernels (FFT, Konno-Ohmachi smoothing, response spectra, filters, polyfit) are summarised as deterministic functions of their arguments (only determinism matters for staleness). '
              'Explicit generator calls with non-default, non-persistent arguments (gen_fa_spectrum(p2_plus/n), gen_response_spectrum(xi=, min_dt_ratio=), ...(trap=False), band=) are outside the property\'s operation list. Pre-state fixes response_times[0] > 0.',
@@ -43,18 +43,20 @@ CLAIMED = {
     'C05': dict(
         text='(a) Unbounded: the constructors (array/list/tuple, float/int) and every public mutator, run from an arbitrary state, leave values a numeric ndarray on a buffer no caller array shares, len == npts, '
              'time == dt*[0..npts-1], and write no array argument (alias tracking of the executor: buffers, views, in-place operators). (b) Frame: 57 public array-level functions of sdof, im, displacements, fns.*, stockwell, '
-             'surface, multiple leave every array/signal argument unchanged - bounded symbolic (n=4, P=2, all real inputs) with the executor\'s store tracking.',
+             'surface, multiple (plus 10 option variants: no / sub-step delays and scalar / per-row reductions of the surface functions, rectangle rule, kept adjacent zeros, tolerance, ...) leave every array/signal argument unchanged and leave a signal argument reporting the velocity/displacement of a fresh object - bounded symbolic (n=4, P=2, all real inputs) with the executor\'s store tracking.',
         note='Part (b) is bounded, not proved (the alias rule itself is size independent, but the run is at concrete sizes). scipy.fftpack.fft(overwrite_x=True) effect contract: may write x only if x is a complex ndarray (observed on scipy 1.18.1). '
              'Integer-dtype AccSignal in-place baseline corrections raise UFuncTypeError before modifying anything (recorded in DESIGN.md, not a listed clause).',
         ref='DESIGN.md 7 C05'),
     'C06': dict(
         text='Unbounded (symbolic record length, dt, p2_plus, n): Signal/AccSignal.gen_fa_spectrum / fa_spectrum / fa_frequencies (default, p2_plus in 0..3, explicit even and odd n, lazy read; from a fresh object AND from an object that already holds the spectrum of an earlier request with any other length) and the array-level generate_fa_spectrum / calc_fa_spectrum (padded, unpadded, p2_plus, n) make exactly one DFT call of length N on the record zero-padded to N, N as stated in the property, return dt*DFT[k] for k < floor(N/2) on the grid k/(N*dt), inputs not written; the DFT kernel itself is an uninterpreted function (assumed library contract). '
+             'The inverse helpers leave the spectrum they are given (the object\'s own cached spectrum) unchanged (bounded, exact DFT). '
              'Bounded with an EXACT symbolic DFT (N = 4, 8; n = 3, 5, 6): fas2values / fas2signal reconstruct the padded record except its mean and Nyquist component, Parseval (N = 4), linearity, trailing zeros that do not change N; max_fa_period reports 1/f of a bin of largest |F| for any complex half spectrum with up to 4 bins.',
         note='The consequences (linearity, Parseval, inverse) are bounded with an exact DFT, not proved for all N; Parseval at N = 8 was dropped for solver budget. Fourier moments / Boore bandwidth are not under contract.',
         ref='DESIGN.md 7 C06'),
     'C07': dict(
         text='Unbounded (symbolic numbers of Fourier and target frequencies): calc_smoothing_matrix_konno_1998, with given and with default targets, with and without a zero-frequency bin: shape (non-zero bins x targets), every entry = raw Konno-Ohmachi weight [sin(b log10(f/fc))/(b log10(f/fc))]^4 (1 on the diagonal f = fc) divided by its column sum, raw weights non-negative, inputs not written. '
-             'Bounded symbolic (n = 3 Fourier frequencies, 1-2 targets; n up to 4, P up to 3 thorough; all real inputs): the direct form calc_smooth_fa_spectrum / generate_smooth_fa_spectrum (explicit targets on and off the grid, default targets, zero bin dropped) equals sum_i |F_i| W_ij / S_j, is the normalised weighted mean, lies within [min, max] of the amplitudes, reproduces a constant, scales linearly; matrix form == direct form with columns summing to 1; bandwidth limits (first/last smoothing frequency whose amplitude reaches ratio*max).',
+             'Bounded symbolic (n = 3 Fourier frequencies, 1-2 targets; n up to 4, P up to 3 thorough; all real inputs): the direct form calc_smooth_fa_spectrum / generate_smooth_fa_spectrum (explicit targets on and off the grid, default targets, zero bin dropped) equals sum_i |F_i| W_ij / S_j, is the normalised weighted mean, lies within [min, max] of the amplitudes, reproduces a constant, scales linearly; matrix form == direct form with columns summing to 1; bandwidth limits (first/last smoothing frequency whose amplitude reaches ratio*max). '
+             'Unbounded, modular over the function-level contract: Signal/AccSignal.smooth_fa_spectrum (lazy read, gen_/generate_smooth_fa_spectrum with a band, with new targets; from a fresh object and from one already smoothed with another band) is calc_smooth_fa_spectrum(frequencies, spectrum, targets, band) of THIS request.',
         note='Derived precondition (from the code, the column normalisation divides by it): for every target the raw weights do not all vanish. The direct form and the bandwidth functions are bounded, not proved. sin/log10 are uninterpreted with ground identities (A4).',
         ref='DESIGN.md 7 C07'),
     'C15': dict(
@@ -76,11 +78,11 @@ CLAIMED = {
     'C09': dict(
         text='Unbounded proof that every cumulative measure (Arias, CAV, ISV, integral |a|, integral |v|, cumulative abs displacement, unit kinetic energy) has the '
              'record length, starts at the defined first value, has exactly the defining quadrature panel as increment (with the constant pi/(2*9.81) for Arias) '
-             'and is non-decreasing; each is executed from the real constructor of AccSignal through the real property getters.',
+             'and is non-decreasing; each is executed from the real constructor of AccSignal through the real property getters, and leaves the signal reporting the record, velocity and displacement of a fresh object (a measure is a pure reader).',
         note='Scaling / sign / zero-padding laws follow from the proved recurrences (induction not mechanised per law). calc_cav_dp: see evidence (bounded or not yet covered).',
         ref='DESIGN.md 7 C09'),
     'C10': dict(
-        text='Unbounded proof that calc_sig_dur_vals / calc_sig_dur (Arias and an arbitrary user measure) return dt*first and dt*last index whose cumulative measure lies '
+        text='Unbounded proof that calc_sig_dur_vals / calc_sig_dur (Arias and an arbitrary user measure; also on a signal that has already been asked with ANOTHER measure) return dt*first and dt*last index whose cumulative measure lies '
              'STRICTLY between the fractions (definite-description spec independent of np.where), tuple vs difference by se, 0<=start<=end<=duration; calc_brac_dur returns '
              'first/last |a|>thr exceedance, 0 / (None, None) exactly when nothing exceeds.',
         note='Precondition (from the property): some sample lies strictly between the fractions. Scale/shift/widening lemmas are consequences of the index-set characterisation (not separately mechanised).',
@@ -118,7 +120,7 @@ CLAIMED = {
         ref='DESIGN.md 7 C17'),
     'C18': dict(
         text='combine_at_angle: ns*cos(theta)+we*sin(theta) in degrees, theta=0, 90, theta+180, new signal has ns.dt (unbounded, trig identities A4). compute_rotated: angles span the half circle from the offset and each value is the measure of that combination, '
-             'for the three ways of naming the measure; ValueError when none is given (unbounded in the record length, 3 angles). Cluster.same_start (2-4 signals, every master index) and Cluster.time_match (two and three signals, every lag combination in {-1, 0, 1} within a window of 2, every master position; values stay arrays, lengths unchanged, compared samples coincide): bounded symbolic.',
+             'for the three ways of naming the measure; ValueError when none is given (unbounded in the record length, 3 angles). Cluster.same_start (2-4 signals, every master index; section windows default, 0..0, 0..1, 0.5..1.5, 1..1, 0..2 s) and Cluster.time_match (two and three signals, every lag combination in {-1, 0, 1} within a window of 2, every master position; values stay arrays, lengths unchanged, compared samples coincide): bounded symbolic.',
         note='Cluster clauses are bounded, not proved.',
         ref='DESIGN.md 7 C18'),
     'C19': dict(
@@ -127,7 +129,7 @@ CLAIMED = {
         note='alpha^2 scaling is a consequence of the proved formula and is not mechanised. Surface functions are bounded, not proved.',
         ref='DESIGN.md 7 C19'),
     'C20': dict(
-        text='Complete (loop-free, full-domain symbolic) proofs for the NZS 1170.5 helpers: sd_nzs == c_h_factor*T^2*Z*N*R on every branch of C/D/E, array form == scalar form, continuity within 0.5% at every breakpoint, '
+        text='Complete (loop-free, full-domain symbolic) proofs for the NZS 1170.5 helpers: sd_nzs == c_h_factor*T^2*Z*N*R on every branch of C/D/E, array form == scalar form for array / list / tuple containers of float and integer periods, continuity within 0.5% at every breakpoint, '
              't_eff inverts the corner displacement relation, domain errors raise; bounded symbolic checks (all real inputs, stated sizes) for interp2d, interp_left, calc_roll_av_vals, calc_step_fn_vals_error, calc_step_fn_steps_vals.',
         note='interp2d precondition derived from the code: node spacing >= 1e-10 (the divide-by-zero guard). The array helpers are bounded, not proved.',
         ref='DESIGN.md 7 C20'),
